@@ -47,9 +47,7 @@ func parsePatch(text string) (map[string][]hunk, error) {
 			flush()
 			file = ""
 		case strings.HasPrefix(l, "--- "):
-			if strings.Contains(l, "/dev/null") {
-				return nil, fmt.Errorf("patch creates a file")
-			}
+			// "--- /dev/null": the file is created (its single hunk has no old lines)
 		case strings.HasPrefix(l, "+++ "):
 			flush()
 			f := strings.TrimPrefix(l, "+++ ")
@@ -139,6 +137,10 @@ func overlayFor(repo, patch string) (map[string][]byte, error) {
 		abs := filepath.Join(repo, f)
 		b, err := os.ReadFile(abs)
 		if err != nil {
+			if os.IsNotExist(err) && len(hs) == 1 && len(hs[0].old) == 0 {
+				ov[abs] = []byte(strings.Join(hs[0].new, "\n") + "\n")
+				continue
+			}
 			return nil, fmt.Errorf("%s: %v", f, err)
 		}
 		s, ok := applyHunks(string(b), hs)
